@@ -788,6 +788,15 @@ evbuffer_commit_space(struct evbuffer *buf,
 	}
 
 	chain = *firstchainp;
+	/* A single-extent reservation may have been served from the chain
+	 * after the first one with space (see evbuffer_expand_singlechain),
+	 * and that chain need not be the last one. */
+	if (n_vecs == 1 && chain && chain->next &&
+	    vec[0].iov_base != (void *)CHAIN_SPACE_PTR(chain) &&
+	    vec[0].iov_base == (void *)CHAIN_SPACE_PTR(chain->next)) {
+		firstchainp = &chain->next;
+		chain = *firstchainp;
+	}
 	/* pass 1: make sure that the pointers and lengths of vecs[] are in
 	 * bounds before we try to commit anything. */
 	for (i=0; i<n_vecs; ++i) {
